@@ -224,6 +224,37 @@ pub fn logical_elapsed(t: std::time::Instant) -> Option<std::time::Duration> {
 }
 
 thread_local! {
+    /// Store clock of the C17 adapter: what `Instant::now()` answers inside `kademlia/store.rs`.
+    static STORE_CLOCK: std::cell::Cell<Option<std::time::Instant>> = const { std::cell::Cell::new(None) };
+}
+
+/// Pin (or release) the clock `MemoryStore` reads on this thread.
+pub fn set_store_clock(t: Option<std::time::Instant>) {
+    STORE_CLOCK.with(|c| c.set(t));
+}
+
+/// The clock of `MemoryStore`: the pinned logical instant, else the real clock.
+pub fn store_now() -> std::time::Instant {
+    STORE_CLOCK.with(|c| c.get()).unwrap_or_else(std::time::Instant::now)
+}
+
+/// `std` as seen by `kademlia/store.rs` under `--cfg litep2p_verif`: identical except that
+/// `time::Instant::now()` reads [`store_now`].
+pub mod clock_std {
+    pub use ::std::*;
+    pub mod time {
+        pub use ::std::time::*;
+        /// Stands in for the `Instant` NAME only; values are real `std::time::Instant`s.
+        pub struct Instant;
+        impl Instant {
+            pub fn now() -> ::std::time::Instant {
+                crate::verif::store_now()
+            }
+        }
+    }
+}
+
+thread_local! {
     /// C01: (Noise static public key, ed25519 identity public key that signs it), recorded by
     /// `NoiseContext::assemble` at the moment the identity payload is produced.
     static C01_STATICS: std::cell::RefCell<Vec<(Vec<u8>, [u8; 32])>> =
